@@ -509,7 +509,7 @@ class Ctx:
             for q in self.qfacts:
                 s.add(q)
             s.add(z3.Not(goal))
-            s.set("timeout", int(max(self.timeout_ms, 20000) * scale))
+            s.set("timeout", int(max(self.timeout_ms, 40000) * scale))
             r = s.check()
             if r == z3.unsat:
                 return "valid", None, "z3"
